@@ -320,6 +320,9 @@ class MarshalSerializer(SerializerBase):
         return marshal.dumps((obj, method, vargs, kwargs))
 
     def dumps(self, data):
+        if type(data) is list:
+            # like the arguments of a call: convert the items (a batch result list can hold exception wrappers)
+            data = [self.convert_obj_into_marshallable(value) for value in data]
         return marshal.dumps(self.convert_obj_into_marshallable(data))
 
     def loadsCall(self, data):
